@@ -46,6 +46,33 @@ def store_class(flavour):
     raise RuntimeError('inner storage class not found')
 
 
+def shell_class(flavour):
+    if flavour == 'shared':
+        from fim.graph.networkx_property_graph import NetworkXGraphStorage as O
+    else:
+        from fim.graph.networkx_property_graph_disjoint import NetworkXGraphStorageDisjoint as O
+    return O
+
+
+class Installed:
+    """a fresh store installed as THE process singleton (<Shell>.storage_instance) for one case; callers use
+    `handle`, a long-lived shell object like importer.storage (created without running the guard); the previous
+    singleton is restored afterwards"""
+
+    def __init__(self, flavour):
+        self.shell = shell_class(flavour)
+        self.saved = self.shell.storage_instance
+        self.first = store_class(flavour)()
+        self.shell.storage_instance = self.first
+        self.handle = object.__new__(self.shell)
+
+    def current(self):
+        return self.shell.storage_instance
+
+    def close(self):
+        self.shell.storage_instance = self.saved
+
+
 def store_codes(cls):
     return {f.__code__ for f in vars(cls).values() if callable(f) and hasattr(f, '__code__')}
 
@@ -118,7 +145,15 @@ def ext_remove(store, op):
             from fim.graph.networkx_property_graph_disjoint import NetworkXPropertyGraphDisjoint as PG
         pg = object.__new__(PG)
         pg.storage, pg.graph_id, pg.log = store, g, None
-        pg.delete_node(node_id=G.nodes[nid]['NodeID'])
+        nodeid = G.nodes[nid]['NodeID']
+        try:
+            pg.delete_node(node_id=nodeid)
+        except Exception as e:      # noqa
+            # another thread emptied the graph between the choice of the node and delete_node's own lookup
+            # ("Unable to find node"): nothing was removed
+            if type(e).__name__ != 'PropertyGraphQueryException':
+                raise
+            return Removed(0)
     return Removed(nid)
 
 
@@ -132,6 +167,17 @@ def call_op(store, op):
         return store.add_blank_node_to_graph(g, Class='NetworkNode', NodeID='%s-b%d' % (g, next(_BLANK)))
     if m in EXT_OPS:
         return ext_remove(store, op)
+    if m == 'new_importer':
+        # a caller constructs a new importer (and, kind 'pgraph', a property-graph handle on graph g): this runs the
+        # shell class's singleton guard; it must never replace the store
+        if hasattr(store, 'start_id'):
+            from fim.graph.networkx_property_graph import NetworkXGraphImporter as Imp
+        else:
+            from fim.graph.networkx_property_graph_disjoint import NetworkXGraphImporterDisjoint as Imp
+        imp = Imp()
+        if op.get('kind') == 'pgraph':
+            imp.graph_class(graph_id=g, importer=imp)
+        return None
     if m == 'del_all_graphs':
         return store.del_all_graphs()
     return getattr(store, m)(g)
@@ -251,7 +297,7 @@ class Worker:
                 if op['m'] not in EXT_OPS:
                     sys.settrace(self.tracer)
                 try:
-                    r = call_op(eng.store, op)
+                    r = call_op(eng.inst.handle, op)
                     if isinstance(r, Removed):
                         res['rm'] = int(r)
                         eng.log.append((self.tid, 'E', None))
@@ -283,7 +329,9 @@ class Engine:
     def __init__(self, flavour, thread_ops, snap=False):
         cls = store_class(flavour)
         self.flavour = flavour
-        self.store = cls()
+        self.inst = Installed(flavour)       # the store is THE singleton; callers go through the shell handle
+        self.instances = [self.inst.first]
+        self.inst_rebound = []               # (grant index, thread, nodes left in the orphaned store)
         self.lock = SLock(self)
         self.store.lock = self.lock
         self.locks = [self.lock]     # every lock object the store has had during this run
@@ -297,6 +345,10 @@ class Engine:
         self.main_sem = threading.Semaphore(0)
         self.workers = [Worker(self, i, ops) for i, ops in enumerate(thread_ops)]
         self.trace = []          # per grant: (chosen tid, enabled tids)
+
+    @property
+    def store(self):
+        return self.inst.current()
 
     def current(self):
         return self.tls.w
@@ -313,6 +365,20 @@ class Engine:
         """after every step: is storage.lock still the object installed at the start?  If the store replaced it
         (assignment to self.lock, re-run of __init__), record it and wrap the new object so that scheduling stays
         deterministic (threads queued on the old object stay queued on the OLD one, as in production)."""
+        st = self.store
+        if st is not self.instances[-1]:
+            # the singleton itself was replaced (a new shell was constructed and its guard did not see the store)
+            old = self.instances[-1]
+            self.inst_rebound.append((step, tid, len(snapshot(self.flavour, old)['nodes']), snapshot(self.flavour, old)['ctrs']))
+            self.instances.append(st)
+            cur = getattr(st, 'lock', None)
+            if cur is not None and not isinstance(cur, SLock) and hasattr(cur, 'acquire'):
+                cur = SLock(self, real=cur)
+                st.lock = cur
+            self.lock = cur
+            if isinstance(cur, SLock):
+                self.locks.append(cur)
+            return
         cur = getattr(self.store, 'lock', None)
         if cur is not self.lock:
             self.rebound.append((step, tid))
@@ -370,13 +436,16 @@ class Engine:
 
 def run_engine(flavour, thread_ops, preempt=None, rng=None, snap=False):
     eng = Engine(flavour, thread_ops, snap=snap)
-    deadlock = eng.run(preempt or {}, rng)
-    for w in eng.workers:
-        w.thread.join(timeout=2)
-    final = snapshot(flavour, eng.store)
+    try:
+        deadlock = eng.run(preempt or {}, rng)
+        for w in eng.workers:
+            w.thread.join(timeout=2)
+        final = snapshot(flavour, eng.store)
+    finally:
+        eng.inst.close()
     return {'log': eng.log, 'results': [w.results for w in eng.workers], 'deadlock': deadlock,
             'lock_errors': eng.lock_errors, 'locked_at_end': any(l.real.locked() for l in eng.locks), 'final': final,
-            'grants': eng.trace, 'rebound': eng.rebound}
+            'grants': eng.trace, 'rebound': eng.rebound, 'inst_rebound': eng.inst_rebound}
 
 
 # ----------------------------------------------------------------------------------------------
@@ -647,7 +716,7 @@ def build_obs(flavour, thread_ops, raw):
             evs = calls[tid][i] if i < len(calls[tid]) else []
             raised = res['out'] != 'ok'
             p = None
-            if op['m'] in EXT_OPS:
+            if op['m'] in EXT_OPS or op['m'] == 'new_importer':
                 p = []
             elif I and op['m'] in I[flavour]['methods']:
                 p = find_path(I[flavour]['methods'][op['m']], evs, raised)
@@ -663,7 +732,7 @@ def build_obs(flavour, thread_ops, raw):
         out_calls.append(row)
     return {'calls': out_calls, 'sched': sched, 'final': raw['final'], 'deadlock': raw['deadlock'],
             'lock_errors': raw['lock_errors'], 'locked_at_end': raw['locked_at_end'],
-            'rebound': raw.get('rebound', []),
+            'rebound': raw.get('rebound', []), 'inst_rebound': raw.get('inst_rebound', []),
             'blocked': sum(1 for _, k, _ in raw['log'] if k == 'B'),
             'lock_order': [(t, k) for t, k, _ in raw['log'] if k in ('A', 'C')]}
 
@@ -684,16 +753,19 @@ def serial_replay(flavour, thread_ops, obs):
             seen.add(pending[t])
             order.append(['A', pending[t]])
     seq = [c for k, c in order if (k == 'A') or (k == 'C' and c not in seen)]
-    cls = store_class(flavour)
-    st = cls()
-    rets = {}
-    for (t, i) in seq:
-        try:
-            r = call_op(st, thread_ops[t][i])
-            rets[(t, i)] = ('ok', r if isinstance(r, int) and not isinstance(r, bool) else None)
-        except Exception as e:
-            rets[(t, i)] = ('exc:' + type(e).__name__, None)
-    return snapshot(flavour, st), rets, st.lock.locked()
+    inst = Installed(flavour)
+    try:
+        rets = {}
+        for (t, i) in seq:
+            try:
+                r = call_op(inst.handle, thread_ops[t][i])
+                rets[(t, i)] = ('ok', r if isinstance(r, int) and not isinstance(r, bool) else None)
+            except Exception as e:
+                rets[(t, i)] = ('exc:' + type(e).__name__, None)
+        st = inst.current()
+        return snapshot(flavour, st), rets, st.lock.locked()
+    finally:
+        inst.close()
 
 
 # ----------------------------------------------------------------------------------------------
@@ -707,6 +779,16 @@ def oracle_common(flavour, thread_ops, obs, check_serial):
                     'another call was queued on / using the old one (it later releases the new, never acquired lock)'
                     % (e, obs['rebound'][0][0], obs['rebound'][0][1]))
         return 'lock error: ' + e
+    if obs.get('inst_rebound'):
+        step, tid, orphan, octrs = obs['inst_rebound'][0]
+        who = ''
+        for t, row in enumerate(obs['calls']):
+            if t == tid:
+                who = ', '.join(c['op']['m'] for c in row if c['op']['m'] == 'new_importer') and 'new_importer'
+        return ('%s store: the process-wide store singleton was REPLACED by a new object at step %d by thread %d%s '
+                '(new graph object, new lock, counters restart at 1; old counters %r); %d node(s) stayed behind in the '
+                'orphaned store, %d replacement(s) in this run' % (flavour, step, tid, ' (constructing a new importer)' if who else '',
+                                                                  octrs, orphan, len(obs['inst_rebound'])))
     for tid, row in enumerate(obs['calls']):
         for c in row:
             if c.get('held_after'):
@@ -783,7 +865,7 @@ def oracle_common(flavour, thread_ops, obs, check_serial):
             if len(obs['final']['nodes']) != exp:
                 return 'a node was lost: %d nodes added by successful calls, %d in the store' % (exp, len(obs['final']['nodes']))
         # (3) atomicity: when every call took the lock, the run must equal the serial run in lock order
-        took = all(any(cd == 1 for _, cd in c['events']) or c['op']['m'] == 'get_graph' for row in obs['calls'] for c in row) \
+        took = all(any(cd == 1 for _, cd in c['events']) or c['op']['m'] in ('get_graph', 'new_importer') for row in obs['calls'] for c in row) \
             and not any(o['m'] in EXT_OPS for o in all_ops)
         if took:
             snap, rets, locked = serial_replay(flavour, thread_ops, obs)
@@ -811,6 +893,10 @@ def frame_oracle(flavour, c):
     others_a = {k: v for k, v in a.items() if k != g}
     if m != 'del_all_graphs' and others_a != others_b:
         return '%s(%s) changed another graph' % (m, g)
+    if flavour == 'shared' and c['after']['ctrs'].get('_', 0) < c['before']['ctrs'].get('_', 0):
+        return '%s(%s): start_id went back from %r to %r' % (m, g, c['before']['ctrs'].get('_'), c['after']['ctrs'].get('_'))
+    if m == 'new_importer' and (a != b or c['after']['ctrs'] != c['before']['ctrs']):
+        return 'constructing a new importer changed the store'
     bg, agn = b.get(g, set()), a.get(g, set())
     if m in EXT_OPS:
         if c['out'] != 'ok':
@@ -859,7 +945,7 @@ def coq_case(flavour, thread_ops, obs):
             p = c['path'] if c['path'] is not None else [True] * 64      # no path found: force a disagreement
             evs = clist(['(%s,%s)' % (cN(l), cN(cd)) for l, cd in c['events']])
             outc = 0 if c['out'] == 'ok' else 1
-            cs.append('("%s"%%string, %s, %s, %s, %s, %s)' % ('remove_node' if (op['m'] in EXT_OPS and not c.get('rm')) else op['m'], cN(g), cN(k), clist([cbool(b) for b in p]), evs, cN(outc)))
+            cs.append('("%s"%%string, %s, %s, %s, %s, %s)' % ('remove_node' if (op['m'] in EXT_OPS and not c.get('rm') and not any(cd for _, cd in c['events'])) else op['m'], cN(g), cN(k), clist([cbool(b) for b in p]), evs, cN(outc)))
         ths.append(clist(cs))
     fin = obs['final']
     if flavour == 'shared':
@@ -882,7 +968,8 @@ def slim(obs):
     """json-able, small"""
     return {'calls': [[{k: v for k, v in c.items() if k not in ('before', 'after')} for c in row] for row in obs['calls']],
             'sched': obs['sched'], 'final': obs['final'], 'deadlock': obs['deadlock'], 'lock_errors': obs['lock_errors'],
-            'locked_at_end': obs['locked_at_end'], 'lock_rebound_at': obs.get('rebound', [])}
+            'locked_at_end': obs['locked_at_end'], 'lock_rebound_at': obs.get('rebound', []),
+            'store_singleton_replaced_at': obs.get('inst_rebound', [])}
 
 
 # ----------------------------------------------------------------------------------------------
@@ -919,12 +1006,14 @@ def rand_op(rng, fail_rate=0.25):
         return {'m': 'del_graph', 'g': g}
     if r < 0.81:
         return {'m': 'extract_graph', 'g': g}
-    if r < 0.86:
+    if r < 0.85:
         return {'m': 'get_graph', 'g': g}
-    if r < 0.91:        # a caller removes a node from the stored graph, directly ...
+    if r < 0.89:        # a caller removes a node from the stored graph, directly ...
         return {'m': 'remove_node', 'g': g, 'idx': rng.randrange(4)}
-    if r < 0.96:        # ... or through NetworkXPropertyGraph.delete_node
+    if r < 0.93:        # ... or through NetworkXPropertyGraph.delete_node
         return {'m': 'delete_node', 'g': g, 'idx': rng.randrange(4)}
+    if r < 0.965:       # a caller constructs a new importer / property-graph handle (runs the singleton guard)
+        return {'m': 'new_importer', 'g': g, 'kind': rng.choice(['importer', 'pgraph'])}
     return {'m': 'del_all_graphs', 'g': g}
 
 
@@ -973,9 +1062,16 @@ class Seq(Stream):
                      {'m': 'del_graph', 'g': g}],
                     [{'m': 'del_graph', 'g': g}, look(), {'m': 'del_graph', 'g': g}, {'m': 'add_blank_node_to_graph', 'g': g}],
                     [{'m': 'del_all_graphs', 'g': g}, look(), {'m': 'del_graph', 'g': g}, {'m': 'add_graph', 'g': g, 'k': 1, 'bad': None}],
+                    # a new importer / handle constructed on an emptied store
+                    [{'m': 'del_all_graphs', 'g': g}, {'m': 'new_importer', 'g': g, 'kind': 'importer'},
+                     {'m': 'add_graph', 'g': g, 'k': 2, 'bad': None}, {'m': 'add_blank_node_to_graph', 'g': g}],
+                    [{'m': 'add_blank_node_to_graph', 'g': g}, {'m': 'del_graph', 'g': g}, {'m': 'new_importer', 'g': g, 'kind': 'pgraph'},
+                     {'m': 'add_blank_node_to_graph', 'g': g}],
                 ])
                 at = rng.randrange(len(ops) + 1)
                 ops = ops[:at] + pat + ops[at:]
+            if i % 7 == 3:      # ... and on a store that never held anything
+                ops = [{'m': 'new_importer', 'g': 'g1', 'kind': rng.choice(['importer', 'pgraph'])}] + ops
             out.append({'flavour': FLAVOURS[i % 2], 'ops': ops})
         return out
 
@@ -1101,6 +1197,13 @@ SCENARIOS = [
     ('remove-vs-blank', [{'m': 'add_graph', 'g': 'g1', 'k': 3, 'bad': None}],
      [[{'m': 'remove_node', 'g': 'g1', 'idx': 0}, {'m': 'add_blank_node_to_graph', 'g': 'g1'}],
       [{'m': 'add_blank_node_to_graph', 'g': 'g1'}, {'m': 'delete_node', 'g': 'g1', 'idx': 1}]]),
+    # a second importer is constructed while a thread is inside a store method, on an empty / emptied store
+    ('new-importer-on-empty-store', [],
+     [[{'m': 'add_graph', 'g': 'g1', 'k': 2, 'bad': None}, {'m': 'add_blank_node_to_graph', 'g': 'g1'}],
+      [{'m': 'new_importer', 'g': 'g2', 'kind': 'importer'}, {'m': 'add_blank_node_to_graph', 'g': 'g2'}]]),
+    ('new-importer-after-delete-all', [{'m': 'add_graph', 'g': 'g1', 'k': 2, 'bad': None}, {'m': 'del_all_graphs', 'g': 'g1'}],
+     [[{'m': 'add_blank_node_to_graph', 'g': 'g1'}, {'m': 'add_graph', 'g': 'g2', 'k': 1, 'bad': None}],
+      [{'m': 'new_importer', 'g': 'g1', 'kind': 'pgraph'}, {'m': 'add_graph', 'g': 'g3', 'k': 1, 'bad': None}]]),
     # lookups of deleted / never-imported ids followed by a second delete
     ('lookup-deleted-vs-delete', [{'m': 'add_graph', 'g': 'g1', 'k': 1, 'bad': None}],
      [[{'m': 'del_graph', 'g': 'g1'}, {'m': 'get_graph', 'g': 'g1'}, {'m': 'del_graph', 'g': 'g1'}],
@@ -1372,6 +1475,8 @@ def _guard_stream(cls, bad_term):
                 obs = next((x for x in a if isinstance(x, dict) and 'harness_error' in x), None)
                 if obs is not None and name != 'observe':
                     return fallback(self, obs)
+                if name == 'observe' and a and isinstance(a[0], dict) and 'harness_error_case' in a[0]:
+                    return {'harness_error': a[0]['harness_error_case']}     # a generator failed: must not pass silently
                 return orig(self, *a, **kw)
             except Exception as e:      # noqa
                 import traceback as tb
@@ -1484,6 +1589,8 @@ class C20(Check):
                             'data_ok CGlobal (snd m), find_bad (dataA CGlobal) DeclFaults 0 (snd m) 12 3)) shared_methods).\n'
                             'Eval vm_compute in (map (fun m => (fst m, lock_ok (snd m), find_bad lockA AllFaults 0 (snd m) 12 3, '
                             'data_ok CArg (snd m), find_bad (dataA CArg) DeclFaults 0 (snd m) 12 3)) disjoint_methods).\n'
+                            'Eval vm_compute in (singleton_ok shared_singleton, singleton_witness shared_singleton, '
+                            'singleton_ok disjoint_singleton, singleton_witness disjoint_singleton, 4242).\n'
                             'Eval vm_compute in (map (fun m => (fst m, fnever_lines (snd m))) shared_methods, '
                             'map (fun m => (fst m, fnever_lines (snd m))) disjoint_methods).\n')
             d = os.path.join(common.COQ, 'Cases')
@@ -1511,6 +1618,10 @@ class C20(Check):
             out.append({'name': 'data_ok (counter discipline) holds for every regenerated method',
                         'ok': p.returncode == 0 and not badd and nm >= 2,
                         'detail': {'failing': badd}})
+            sg = re.search(r'= \((true|false), (Some \d+|None), (true|false), (Some \d+|None), 4242\)', o)
+            out.append({'name': 'singleton guard of both shell classes is an identity test (no __len__/__bool__ on the inner class under `if not X.storage_instance`); witness = size of a store that a new importer would replace',
+                        'ok': bool(sg) and sg.group(1) == 'true' and sg.group(3) == 'true',
+                        'detail': {'shared': sg.group(1, 2) if sg else None, 'disjoint': sg.group(3, 4) if sg else None}})
             tail = o[o.rfind('= (['):] if '= ([' in o else ''
             assumed = [(m, [int(x) for x in re.findall(r'\d+', ls)]) for m, ls in re.findall(r'\("(\w+)"%string, \[([^\]]*)\]\)', tail)]
             out.append({'name': 'statements outside any try (assumed non-raising; between acquire and release they are the attack targets) listed from the regenerated IR',
